@@ -333,3 +333,25 @@ def rule_bfs_distance(ck, repo, R, select, floor):
                       file=f.file, line=pop.lineno, func=f.qualname, construct=src(pop))
     ck.count(f'{R}: level-labelling worklists', n)
     ck.floor(R, floor)
+
+
+def rule_morgan_layers(ck, repo, R):
+    ck.rule(R, '_morgan_hash_dict builds exactly one identifier layer per radius 1..max_radius (loop `range(1, max_radius)` after the initial layer) and '
+               'returns the last max_radius - min_radius + 1 of them: any other round count makes the slice slide to other radii')
+    f = repo.func('chython.algorithms.fingerprints.morgan:MorganFingerprint._morgan_hash_dict')
+    ck.require(f is not None, '_morgan_hash_dict not found')
+    loops = [n for n in ast.walk(f.node) if isinstance(n, ast.For) and isinstance(n.iter, ast.Call) and src(n.iter.func) == 'range']
+    ck.require(len(loops) == 1, '_morgan_hash_dict: expected one range loop')
+    args = [src(a) for a in loops[0].iter.args]
+    rounds_ok = args in (['1', 'max_radius'], ['max_radius - 1'], ['0', 'max_radius - 1'])
+    ck.decide(rounds_ok, R, 'rounds', args, f'_morgan_hash_dict iterates range({", ".join(args)}): the number of layers is no longer max_radius for every molecule, '
+                                            f'while the returned slice still assumes len(out) == max_radius', file=f.file, line=loops[0].lineno, func=f.qualname,
+              construct=src(loops[0].iter))
+    init = [n for n in ast.walk(f.node) if isinstance(n, ast.Assign) and src(n.targets[0]) == 'out']
+    ck.decide(len(init) == 1 and src(init[0].value) == '[identifiers]', R, 'initial-layer', None, 'the radius-1 layer is no longer the initial element of out', file=f.file)
+    app = [n for n in ast.walk(loops[0]) if isinstance(n, ast.Call) and src(n.func) == 'out.append']
+    ck.decide(len(app) == 1, R, 'one-layer-per-round', len(app), f'{len(app)} appends per round', file=f.file)
+    ret = [n for n in ast.walk(f.node) if isinstance(n, ast.Return)]
+    ck.decide(len(ret) == 1 and src(ret[0].value).replace(' ', '') in ('out[-(max_radius-min_radius+1):]', 'out[min_radius-1:]', 'out[min_radius-1:max_radius]'), R, 'slice',
+              src(ret[0].value) if ret else None, f'returned slice `{src(ret[0].value) if ret else None}` does not select radii min_radius..max_radius', file=f.file)
+    ck.floor(R, 4)
